@@ -136,6 +136,17 @@ static Built BuildTagged(Rng &r, const vf::Topo &t, bool point_cloud, const Targ
   vf::Attr &tag = add(GeometryAttribute::GENERIC, DT_UINT32, 1, 42);
   b.tag_att = static_cast<int>(g.atts.size()) - 1;
   for (uint32_t v = 0; v < t.nverts; ++v) memcpy(tag.val(v), &v, 4);
+  // Attribute order is part of the input: in a third of the cases POSITION is not the first attribute (encoders that
+  // use it as prediction parent are then created before it).
+  if (!target_is_position && r.below(3) == 0) {
+    const int n = static_cast<int>(g.atts.size());  // 3: position, target, tag
+    std::vector<int> perm(n);
+    for (int i = 0; i < n; ++i) perm[i] = i;
+    do { for (int i = n - 1; i > 0; --i) std::swap(perm[i], perm[r.below(i + 1)]); } while (perm[0] == 0);  // new slot of old attribute i
+    std::vector<vf::Attr> old = g.atts;
+    for (int i = 0; i < n; ++i) g.atts[perm[i]] = old[i];
+    g.pos_att = perm[0]; b.target_att = perm[b.target_att]; b.tag_att = perm[b.tag_att];
+  }
   return b;
 }
 
@@ -265,7 +276,7 @@ int main(int argc, char **argv) {
       o.explicit_q.assign(bb.g.atts.size(), vf::EncOpts::Explicit());
       o.qbits[bb.target_att] = tg.bits;
       if (tg.explicit_q) { o.explicit_q[bb.target_att].bits = tg.bits; o.explicit_q[bb.target_att].origin = tg.origin; o.explicit_q[bb.target_att].range = tg.range; }
-      if (!target_is_position && (point_cloud || r.below(2))) o.qbits[0] = 5 + r.below(12);  // position quantized too (needed for kd-tree)
+      if (!target_is_position && (point_cloud || r.below(2))) o.qbits[bb.g.pos_att] = 5 + r.below(12);  // position quantized too (needed for kd-tree)
       // prediction schemes admissible for the target's attribute type
       for (size_t a = 0; a < o.pred.size(); ++a) if (o.pred[a] == MESH_PREDICTION_GEOMETRIC_NORMAL) o.pred[a] = -100;
       if (smooth_hi) { o.expert = true; o.method = 1; o.enc_speed = static_cast<int>(r.below(2)); o.dec_speed = o.enc_speed; for (auto &pp : o.pred) pp = -100; o.builtin = -1; }
@@ -463,6 +474,49 @@ int main(int argc, char **argv) {
         return;
       }
     }
+    // The same coordinates once more as an untagged cloud holding the target alone (mostly kd-tree): the tag attribute
+    // of the runs above shares the kd-tree and hides whatever depends on the largest value in the tree. Without tags the
+    // points cannot be matched one by one, but the multiset of decoded tuples must equal the tagged run's exactly.
+    if (point_cloud && r.below(2) == 0) {
+      Built u;
+      u.g.is_mesh = false; u.g.family = "points-untagged"; u.g.npoints = topo.nverts; u.g.pos_att = 0;
+      vf::Attr a;
+      a.type = tg.nc == 3 ? GeometryAttribute::POSITION : GeometryAttribute::GENERIC; a.dt = DT_FLOAT32; a.nc = tg.nc; a.unique_id = 7; a.elem = 0; a.nvals = topo.nverts;
+      a.data.resize(a.nvals * a.stride());
+      memcpy(a.data.data(), tg.vals.data(), tg.vals.size() * 4);
+      u.g.atts.push_back(a);
+      vf::EncOpts uo = o;
+      uo.qbits.assign(1, tg.bits); uo.pred.assign(1, -100);
+      uo.explicit_q.assign(1, vf::EncOpts::Explicit());
+      uo.explicit_q[0].bits = tg.bits; uo.explicit_q[0].origin = tg.origin; uo.explicit_q[0].range = tg.range;
+      uo.method = r.below(4) ? 1 : -1;
+      std::unique_ptr<PointCloud> upc = vf::ToPointCloud(u.g);
+      vf::EncResult uer = vf::Encode(u.g, *upc, nullptr, uo);
+      if (uer.status.ok()) {
+        const std::string ucfg = static_cast<uint8_t>(uer.bytes[8]) == POINT_CLOUD_KD_TREE_ENCODING ? "kd-tree" : "pc-sequential";
+        std::vector<Reporter::Artifact> uarts = arts;
+        uarts.push_back({"untagged.drc", uer.bytes});
+        vf::DecResult udr = vf::Decode(uer.bytes.data(), uer.bytes.size());
+        const PointAttribute *ua = udr.status.ok() ? udr.pc->GetAttributeByUniqueId(7) : nullptr;
+        if (!ua || ua->num_components() != tg.nc || ua->data_type() != DT_FLOAT32 || udr.pc->num_points() != topo.nverts || first.size() != topo.nverts) {
+          if (first.size() == topo.nverts) { rep.violation("untagged-cloud-does-not-decode-to-the-same-points/" + ucfg, desc + " untagged " + uo.Describe() + (udr.status.ok() ? "" : std::string(" :: ") + udr.status.error_msg()), uarts); return; }
+        } else {
+          std::vector<std::vector<float>> want, got;
+          for (auto &kv : first) want.push_back(kv.second);
+          std::vector<float> v(tg.nc);
+          for (uint32_t pnt = 0; pnt < udr.pc->num_points(); ++pnt) { ua->GetMappedValue(PointIndex(pnt), v.data()); got.push_back(v); }
+          auto bitless = [](const std::vector<float> &x, const std::vector<float> &y) { return memcmp(x.data(), y.data(), 4 * x.size()) < 0; };
+          std::sort(want.begin(), want.end(), bitless); std::sort(got.begin(), got.end(), bitless);
+          for (size_t i = 0; i < want.size(); ++i) if (memcmp(want[i].data(), got[i].data(), 4 * tg.nc) != 0) {
+            char m[200];
+            snprintf(m, sizeof m, " rank=%zu tagged=%.9g untagged=%.9g", i, want[i][0], got[i][0]);
+            rep.violation("shared-coordinate-decodes-differently/" + run.cfg + "-vs-untagged-" + ucfg, desc + " untagged " + uo.Describe() + m, uarts);
+            return;
+          }
+          rep.count("untagged_pair/" + run.cfg + "-vs-" + ucfg);
+        }
+      } else rep.count("untagged_encoder_refused");
+    }
     // second geometry: a subset/permutation of the coordinates + new interior values inside the same box
     const bool pc2 = r.below(2);
     vf::Topo topo2;
@@ -487,7 +541,7 @@ int main(int argc, char **argv) {
     o2.explicit_q.assign(b2.g.atts.size(), vf::EncOpts::Explicit());
     o2.qbits[b2.target_att] = tg.bits;
     o2.explicit_q[b2.target_att].bits = tg.bits; o2.explicit_q[b2.target_att].origin = tg.origin; o2.explicit_q[b2.target_att].range = tg.range;
-    if (!tip2 && (pc2 || r.below(2))) o2.qbits[0] = 5 + r.below(12);
+    if (!tip2 && (pc2 || r.below(2))) o2.qbits[b2.g.pos_att] = 5 + r.below(12);
     for (size_t a = 0; a < o2.pred.size(); ++a) if (o2.pred[a] == MESH_PREDICTION_GEOMETRIC_NORMAL) o2.pred[a] = -100;
     vf::AvoidHugeEntropyTables(b2.g, &o2);
     if (o2.explicit_q[b2.target_att].bits != tg.bits) { rep.count("second_encode_bits_constrained"); rep.held(0, false); return; }
